@@ -20,6 +20,30 @@ CHECKS = {
             "Trusts the 60-line Python set model; ranges used as libext2fs callers use them "
             "(byte-aligned bulk ranges, set_range onto clear ranges); ASan red zones only.",
             "DESIGN.md section 2, C16"),
+    "C13": ("exploration",
+            "runtime monitoring at the device boundary: SHA-256 + size + hole map + mtime of the target "
+            "before/after every read-only invocation, and strace -f -y as an interposition-proof "
+            "witness of write-class syscalls on the target",
+            "For (image state, read-only invocation) pairs over consistent, journal-pending, orphan, MMP, "
+            "stale-quota, error-flagged, primary-superblock-destroyed and corrupted states and 29 "
+            "invocations of 9 tools, the target (and external journal / undo / e2i file) is byte-, size- "
+            "and hole-identical afterwards and no write-class syscall touched it; held on the pairs run.",
+            "Targets are regular files on tmpfs (no block-device ioctls); strace sees every syscall of "
+            "the traced quarter (all pairs in thorough); three write controls prove the witnesses work.",
+            "DESIGN.md section 2, C13"),
+    "C17": ("exploration",
+            "model-based runtime monitoring of the io_channel API (byte-array device model + cache-"
+            "coherence hook + LD_PRELOAD write-failure injection, fault_enumeration over every device "
+            "write of sampled histories) and ThreadSanitizer runs of threaded bitmap loading with "
+            "hook-injected delays, digests compared with single-threaded loading",
+            "Every read of seeded io_channel histories (unix cached/uncached/direct/bounce, unixfd, undo- and "
+            "test_io-wrapped) returns the model's bytes, the backing file equals the model after flush "
+            "(with fsync) and close, every injected write failure is reported, clean cache entries equal "
+            "the device; bitmap loading with 1..N threads gives identical bitmaps/flags, thread ranges "
+            "partition the groups, and TSan is silent on the schedules observed (counted).",
+            "Schedules are sampled (hook delays), not enumerated; TSan only sees intercepted "
+            "synchronisation; fault injection on the plain build only; ASan red zones.",
+            "DESIGN.md section 2, C17"),
 }
 
 NOT_YET = "check not built yet in this round (planned, see DESIGN.md section 2)"
